@@ -27,6 +27,8 @@ type Gen struct {
 	dupCreate bool
 	canonical bool // canonical child order (FAR id first etc.)
 	slotGen   map[[2]int]int
+	stopAt    int
+	between   int
 	mass      int // >0: many sessions with 8 periodic URRs of one period (batch limit)
 	massPeriod uint32
 }
@@ -102,6 +104,9 @@ func profileConfig(p string, seed uint64) RunConfig {
 	case "C17":
 		c.FinalStop = true
 		c.AutoAnswer = r.IntN(2) == 0
+		c.Steps = 12 + r.IntN(40)
+		c.Oracles = []string{"C17"}
+		c.NoPeek = true
 	case "C18":
 		c.Interpose = false
 		c.KernLatency = pick(r, 1, 2, 5)
@@ -180,7 +185,7 @@ func newGen(s *Sim) *Gen {
 	case "C17":
 		g.mode = "clean"
 		g.perioOK = true
-		g.w = map[string]int{"hb": 2, "est": 6, "mod": 8, "del": 2, "dup": 3, "krep": 6, "kbuf": 4, "adv": 5, "ans": 3}
+		g.w = map[string]int{"hb": 2, "est": 8, "mod": 8, "del": 2, "dup": 3, "krep": 6, "kbuf": 4, "adv": 5, "ans": 3}
 	case "C18":
 		g.perioOK = true
 		g.w = map[string]int{"est": 10, "mod": 2, "adv": 6, "krepburst": 4, "reassoc": 3, "del": 2, "hb": 1}
@@ -690,6 +695,39 @@ var seidProbes = []uint64{0, 1 << 62, 1<<63 - 1, 1 << 63, 1<<63 + 1, ^uint64(0),
 func (g *Gen) next() (Action, bool) {
 	s := g.s
 	g.n++
+	if s.cfg.FinalStop {
+		// stop at a seed-chosen point, with a few actions between Stop() and Close()
+		if g.stopAt == 0 {
+			g.stopAt = len(s.smfs) + 3 + g.intn(max(1, s.cfg.Steps-8))
+			g.between = g.intn(4)
+		}
+		switch {
+		case g.n == g.stopAt:
+			return Action{Op: "stop1"}, true
+		case g.n > g.stopAt && g.n <= g.stopAt+g.between:
+			switch g.intn(5) {
+			case 0:
+				return Action{Op: "adv", Ms: int64(pick(g.rng, 1, 200, 1000, 1100, 5000))}, true
+			case 1:
+				if a, ok := g.krep(); ok {
+					return a, true
+				}
+			case 2:
+				if a, ok := g.kbuf(); ok {
+					return a, true
+				}
+			case 3:
+				if len(g.sent) > 0 {
+					return Action{Op: "dup", Ref: g.sent[len(g.sent)-1]}, true
+				}
+			}
+			return Action{Op: "adv", Ms: int64(s.cfg.RetransMs + 1)}, true
+		case g.n == g.stopAt+g.between+1:
+			return Action{Op: "stop2"}, true
+		case g.n > g.stopAt+g.between+1:
+			return Action{}, false
+		}
+	}
 	if g.n <= len(s.smfs) {
 		m := s.smfs[g.n-1]
 		return g.noteSent(Action{Op: "send", SMF: m.Idx, Msg: &MsgIntent{T: "assoc", Seq: g.seq(m)}}), true
@@ -898,7 +936,7 @@ func max64(a, b int64) int64 {
 	return b
 }
 
-func (s *Sim) srvSlots() int { return s.srv.VerifState().Slots }
+func (s *Sim) srvSlots() int { return s.peek().Slots }
 
 func (g *Gen) heldSend(m *SMF, slot int) (Action, bool) {
 	in := &MsgIntent{T: pick(g.rng, "hb", "hb", "mod", "del"), Seq: g.seq(m), Slot: slot}
